@@ -17,6 +17,7 @@ code->spec: per case one trace (invoke / encode <raw text classified character b
 import json
 import os
 import random
+import re
 from concurrent.futures import ProcessPoolExecutor, ThreadPoolExecutor
 
 from .. import core, gen, tlc
@@ -135,8 +136,31 @@ def _run_api(job):
         return dict(machinery=f'{type(e).__name__}: {e}')
 
 
+HEAP = '-Xmx3g'            # many checks share this machine: keep every JVM small
+
+
+def _tlc(*a, **kw):
+    """tlc.run with a bounded heap; a run killed from outside (OOM killer on the shared machine) is repeated once."""
+    kw.setdefault('java_opts', [HEAP])
+    r = tlc.run(*a, **kw)
+    if r.rc in (-9, 137):
+        r = tlc.run(*a, **kw)
+    return r
+
+
+def _emit(*a, **kw):
+    r = _tlc(*a, workers=1, **kw)
+    return r.cases, r
+
+
 def _validate(batch):
-    return tlc.validate_all('RoutingTrace', 'RoutingTrace.cfg', batch, timeout=1500)
+    for attempt in (0, 1):
+        try:
+            return tlc.validate_all('RoutingTrace', 'RoutingTrace.cfg', batch, timeout=1500,
+                                    env={'JAVA_TOOL_OPTIONS': HEAP})
+        except RuntimeError:
+            if attempt:
+                raise
 
 
 def _canon_pairs(pairs):
@@ -149,16 +173,16 @@ def main(chk, args):
     bg = ThreadPoolExecutor(12)
     # 1. the specification satisfies the property within the bounds; the spec mutants are rejected.  These TLC runs
     #    proceed in the background while cases are emitted and executed.
-    mc = [bg.submit(tlc.run, 'Routing', 'Routing.small.cfg' if quick else 'Routing.full.cfg', deadlock=False,
+    mc = [bg.submit(_tlc, 'Routing', 'Routing.small.cfg' if quick else 'Routing.full.cfg', deadlock=False,
                     timeout=2400, workers=8)]
     if not quick:
-        mc.append(bg.submit(tlc.run, 'Routing', 'Routing.small.cfg', deadlock=False, timeout=2400, workers=4))
+        mc.append(bg.submit(_tlc, 'Routing', 'Routing.small.cfg', deadlock=False, timeout=2400, workers=4))
         # beyond the exhaustive bounds: seeded simulation of the large scope (0..4 parameters, 1..3 variables)
-        mc += [bg.submit(tlc.run, 'Routing', 'Routing.sim.cfg', deadlock=False, timeout=2400, workers=1, simulate=2500,
+        mc += [bg.submit(_tlc, 'Routing', 'Routing.sim.cfg', deadlock=False, timeout=2400, workers=1, simulate=2500,
                          depth=500, seed=chk.seed * 1000 + 91 + k) for k in range(3)]
     # (mutants: seeded simulation of the small scope with 6 requests per rule finds each of them within seconds)
     base_cfg = open(os.path.join(tlc.SPEC, 'Routing.small.cfg')).read().replace('MaxCalls = 1', 'MaxCalls = 6')
-    muts = {m: bg.submit(tlc.run, 'Routing', base_cfg.replace('Mutant = "none"', f'Mutant = "{m}"'), deadlock=False,
+    muts = {m: bg.submit(_tlc, 'Routing', base_cfg.replace('Mutant = "none"', f'Mutant = "{m}"'), deadlock=False,
                          timeout=1200, workers=1, simulate=4000, depth=300, seed=5) for m in MUTANTS}
 
     # 2. spec -> code cases: exhaustive small scopes + seeded simulation of the large scope
@@ -167,7 +191,7 @@ def main(chk, args):
     if not quick:
         emits += [('Routing.emit.small.cfg', {}), ('Routing.emit.templates.cfg', {})]
     emits += [('Routing.emit.sim.cfg', dict(simulate=per, depth=500, seed=chk.seed * 1000 + 17 + k)) for k in range(nsim)]
-    futs = [(cfg, bg.submit(tlc.emit_cases, 'Routing', cfg, deadlock=False, timeout=1500, **kw)) for cfg, kw in emits]
+    futs = [(cfg, bg.submit(_emit, 'Routing', cfg, deadlock=False, timeout=1500, **kw)) for cfg, kw in emits]
     cases, seen, per_cfg = [], set(), {}
     for cfg, f in futs:
         cs, r = f.result()
@@ -333,8 +357,12 @@ def main(chk, args):
         chk.violation(key, (f'[{n} failing cases] ' if n > 1 else '') + summary, replay)
 
     # 6. the background TLC runs
+    simulated = 0
     for f, label in zip(mc, ['small'] if quick else ['full', 'small', 'simulate large', 'simulate large', 'simulate large']):
-        chk.add_tlc(f.result(), f'Routing model check ({label})')
+        r = f.result()
+        chk.add_tlc(r, f'Routing model check ({label})')
+        m = re.search(r'(\d+) states checked', r.out)
+        simulated += int(m.group(1)) if m and 'simulate' in label else 0
     for m, f in muts.items():
         rm = f.result()
         chk.add_tlc(rm, f'spec mutant {m} (must be rejected)', require_ok=False)
@@ -349,10 +377,21 @@ def main(chk, args):
                 'from the templates (empty, matching, matching with characters needing escaping, broken); each case is '
                 'executed on sync gRPC, asyncio gRPC and REST.  non-trivial = at least one field the rule reads is non-empty; '
                 'distinct by (rule, request)')
-    ids = [i for i in meta if meta[i][0]['pairs'] and any('sp' in seg for _, v in meta[i][0]['pairs'] for seg in v)]
-    ids = ([i for i in ids if meta[i][0]['rule']['explicit'] and len(meta[i][0]['rule']['params']) > 1][:3]
-           + [i for i in ids if not meta[i][0]['rule']['explicit']][:2]
-           + [i for i in meta if meta[i][0]['rule']['explicit'] and not meta[i][0]['present'] and meta[i][1].get('routing')][:1])
+    def pick(pred, n):
+        out, rules_seen = [], set()
+        for i in meta:
+            c = meta[i][0]
+            shape = rule_shape(c['rule'])
+            if shape not in rules_seen and pred(c):
+                rules_seen.add(shape); out.append(i)
+                if len(out) == n:
+                    break
+        return out
+    esc = lambda c: any('sp' in seg for _, v in c['pairs'] for seg in v)
+    ids = (pick(lambda c: c['rule']['explicit'] and len(c['rule']['params']) > 2 and len(c['pairs']) > 1 and esc(c), 2)
+           + pick(lambda c: c['rule']['explicit'] and c['rule']['params'] and not c['present'] and request_of(c['req']), 1)
+           + pick(lambda c: not c['rule']['explicit'] and len(c['pairs']) > 1 and esc(c) and 'type' in json.dumps(c['rule']), 2)
+           + pick(lambda c: c['rule']['explicit'] and len(c['rule']['params']) == 2 and esc(c), 1))
     for cid in ids:
         c, m = meta[cid]
         chk.sample(dict(rule=rule_shape(c['rule']), routing=m.get('routing'), http=m['http'], request=request_of(c['req']),
@@ -367,7 +406,7 @@ def main(chk, args):
         'header-pair order, other metadata entries and the spelling of percent-escapes (case, `+` vs %20) are not compared',
         'http verbs are assigned round-robin by the harness; `{f}` and `{f=*}` spellings of http variables alternate',
         'loopback gRPC/HTTP servers; character classes are represented by one character each (space & = % e-acute)']
-    chk.extra.update(rules=len(rule_keys), apis=len(jobs), cases_by_config=per_cfg, rest_refusals_accepted=refused_ok,
+    chk.extra.update(simulated_states_checked=simulated, rules=len(rule_keys), apis=len(jobs), cases_by_config=per_cfg, rest_refusals_accepted=refused_ok,
                      calls=3 * len(traces))
 
 
